@@ -158,6 +158,8 @@ func c3FlowAlphabet(full bool) []*c3S {
 		// observers
 		c3Ret(p), c3Ret(c3Bin("+", x, y)), c3Ret(c3Plus1("p")), c3Ret(c3Plus1("x")),
 		c3Send(p), c3Do(c3CC()),
+		c3RetStatus(x, 201), // `> x :: 201`: the status travels in the returned value
+		c3Ret(c3Arr(x, p)),  // the optimizer descends into array literals
 		// if
 		c3If(pEq1, c3L(c3Set("y", x)), nil),
 		c3If(pEq1, c3L(c3Decl("x", two)), nil),
@@ -183,6 +185,8 @@ func c3FlowAlphabet(full bool) []*c3S {
 		loop(c3Set("x", p)),
 		loop(c3Decl("y", c3Int(5))),
 		loop(c3Decl("y", c3Plus1("x"))),
+		loop(c3Decl("y", c3Bin("+", c3Bool(true), one))), // invariant, fails when evaluated: must not run for zero trips
+		loop(c3Decl("y", c3Plus1("p")), c3Send(y)),       // not invariant: reads the counter
 		loop(c3Send(x)),
 		loop(c3Send(p)),
 		loop(c3Send(one), c3Decl("y", c3CC())),
